@@ -7,7 +7,8 @@ V=$(pwd)
 NAMES=${*:-$(ls seeded | grep -v '\.md$')}
 TMP=$(mktemp); BAD=0
 for n in $NAMES; do
-  P=$(/venv/bin/python -c "import json;print(json.load(open('$V/seeded/$n/meta.json'))['property'])")
+  P=$(/venv/bin/python -c "import json;m=json.load(open('$V/seeded/$n/meta.json'));print('SUPERSEDED' if m.get('superseded') else m['property'])")
+  if [ "$P" = SUPERSEDED ]; then echo "$n: superseded (not a breaking change on the current tree, see meta.json)" | tee -a "$TMP"; continue; fi
   WT=$(mktemp -d /tmp/seeddg-XXXXXX); rmdir "$WT"
   git -C /repo worktree add --detach "$WT" HEAD >/dev/null 2>&1 || continue
   if ! git -C "$WT" apply "$V/seeded/$n/patch.diff" 2>/dev/null; then echo "$n $P: PATCH DOES NOT APPLY" | tee -a "$TMP"; BAD=1; git -C /repo worktree remove --force "$WT"; continue; fi
